@@ -122,17 +122,24 @@ impl Constraints {
             } else if a < b {
                 // Values do not wrap arround
                 centers[j_idx] = (a + b) / 2.0;
-                tolerances[j_idx] = (b - a) / 2.0;
+                tolerances[j_idx] = Self::half_width(a, b, centers[j_idx]);
             } else {
                 // Values wrap arround. Move b forward by period till it gets ahead.
                 while b < a {
                     b = b + TWO_PI;
                 }
                 centers[j_idx] = (a + b) / 2.0;
-                tolerances[j_idx] = (b - a) / 2.0;
+                tolerances[j_idx] = Self::half_width(a, b, centers[j_idx]);
             }
         }
         (centers, tolerances)
+    }
+
+    /// Half width of the range [a, b] as seen from its (rounded) center: the larger of the two
+    /// distances, so that both limits stay inside the range also when it is only a few ulp wide
+    /// (limits a whole turn apart, like 93 and -267 degrees).
+    fn half_width(a: f64, b: f64, center: f64) -> f64 {
+        (center - a).max(b - center)
     }
 
     pub fn update_range(&mut self, from: Joints, to: Joints) {
